@@ -215,13 +215,31 @@ class Converter:
         return self.opaque[tag]
 
 
-def is_zero(expr, tries=True):
-    """CAS decision of expr == 0 over the reals. Returns (bool, residual)."""
+_delta = sp.Symbol("delta", positive=True)
+
+
+def is_zero(expr, tries=True, gt1=None):
+    """CAS decision of expr == 0 over the reals. Returns (bool, residual).
+    gt1: a symbol known to exceed 1 (the adiabatic index); rewritten as 1+delta, delta>0,
+    so that radicands that are sums of positive terms are recognised as positive."""
     if expr == 0:
         return True, sp.Integer(0)
     r = sp.simplify(expr)
     if r == 0:
         return True, r
+    if gt1 is not None and tries:
+        e2 = expr.xreplace({gt1: 1 + _delta})
+        r2 = sp.simplify(e2)
+        if r2 == 0:
+            return True, r2
+        r2 = r2.replace(lambda x: x.is_Pow and x.exp in (sp.Rational(1, 2), -sp.Rational(1, 2)),
+                        lambda x: sp.Pow(sp.factor(sp.expand(x.base)), x.exp))
+        r2 = sp.simplify(r2)
+        if r2 == 0:
+            return True, r2
+        r2 = sp.simplify(sp.powsimp(sp.powdenest(sp.expand_power_base(r2, force=True), force=True), force=True))
+        if r2 == 0:
+            return True, r2
     if tries:
         for f in (lambda x: sp.simplify(sp.expand(x)),
                   lambda x: sp.simplify(sp.powsimp(sp.expand_power_base(x, force=True), force=True)),
